@@ -36,9 +36,21 @@ def do_variant(v, expect_fire):
     try:
         path = os.path.join(d, rel)
         src = open(path).read()
-        if src.count(old) < 1:
-            return name, "STALE", f"pattern not found in {rel}"
-        src2 = src.replace(old, new, 1)
+        if callable(old):
+            # a refactoring written as a function source -> source (returns None when its anchors are gone)
+            src2 = old(src)
+            if src2 is None or src2 == src:
+                return name, "STALE", f"refactoring does not apply to {rel}"
+        elif isinstance(old, list):
+            src2 = src
+            for o, n in old:
+                if src2.count(o) < 1:
+                    return name, "STALE", f"pattern not found in {rel}: {o[:50]!r}"
+                src2 = src2.replace(o, n, 1)
+        else:
+            if src.count(old) < 1:
+                return name, "STALE", f"pattern not found in {rel}"
+            src2 = src.replace(old, new, 1)
         try:
             compile(src2, rel, "exec")
         except SyntaxError as e:
